@@ -369,8 +369,10 @@ def session_blob(w, sid, user, alg, keyblob):
     return m.asbytes()
 
 
-def drive_server(w, Srv, t, declared, keyblob, cb_failed, attached, sigbytes):
-    """Returns canonical outcome (as Model run_server)."""
+def drive_server(w, Srv, t, declared, keyblob, cb_failed, attached, sigbytes, prior=()):
+    """Returns canonical outcome (as Model run_server) of the LAST request.  `prior`: earlier publickey
+    requests (declared, keyblob, attached, sigbytes) delivered to the SAME AuthHandler first (a key probe
+    answered with PK_OK, a rejected signed request, ...)."""
     import paramiko.auth_handler as ah
     sent = []
     srv = Srv(cb_failed)
@@ -383,6 +385,24 @@ def drive_server(w, Srv, t, declared, keyblob, cb_failed, attached, sigbytes):
     t.close = lambda: sent.append(b"\xfeclose")
     h = ah.AuthHandler(t)
     t.auth_handler = h
+    for pd, pb, pa, ps in prior:
+        pm = w.Message()
+        pm.add_string("user")
+        pm.add_string("ssh-connection")
+        pm.add_string("publickey")
+        pm.add_boolean(pa)
+        pm.add_string(pd)
+        pm.add_string(pb)
+        if pa:
+            pm.add_string(ps)
+        try:
+            h._parse_userauth_request(w.Message(pm.asbytes()))
+        except Exception:  # noqa
+            pass
+        if h.authenticated or not t.active or any(x[:1] == b"\xfe" for x in sent):
+            return [997], srv, h          # the prior request already ended the exchange
+        del sent[:]
+        del srv.keys[:]
     m = w.Message()
     m.add_string("user")
     m.add_string("ssh-connection")
@@ -497,6 +517,72 @@ def server_cases(ctx, w):
                                  "server rejected an honest publickey signature",
                                  case=dict(case, side="server"), expected="USERAUTH_SUCCESS", observed=impl)
     return cases, full
+
+
+def server_histories(ctx, w):
+    """Two publickey requests on ONE AuthHandler: a first request (key probe answered PK_OK, or a signed request
+    that is rejected) naming one algorithm, then a signed request for the same / another key blob naming
+    another algorithm.  The second decision must be the one a fresh handler takes (the model is stateless
+    per request), and the property is checked on it directly."""
+    T = w.paramiko.Transport
+    Srv = make_server_class(w)
+    default = list(T._preferred_pubkeys)
+    fam = {"rsa": ["ssh-rsa", "rsa-sha2-256", "rsa-sha2-512"],
+           "p256": ["ecdsa-sha2-nistp256"], "p384": ["ecdsa-sha2-nistp384"], "p521": ["ecdsa-sha2-nistp521"],
+           "ed": ["ssh-ed25519"]}
+    blobs = [b for b in w.blobs if b[0] in ("rsa", "rsa-cert", "p256", "p384", "ed")]
+    n = 0
+    for ci, dis in enumerate(SERVER_CONFIGS):
+        t = new_transport(w, {"pubkeys": dis})
+        enabled = [x for x in default if x not in dis]
+        for label, signer, blob in blobs:
+            firsts = [a for a in fam[signer] if a in enabled]
+            seconds = fam[signer] + [fam[signer][0] + CERT, "ssh-dss"] + \
+                (["ecdsa-sha2-nistp256"] if signer == "p384" else [])
+            for first in firsts:
+                for kind in ("probe", "rejected-signed"):
+                    for second in seconds:
+                        for name, how in sig_variants(signer):
+                            if name not in fam[signer] or how == "wrongdata":
+                                continue
+                            if not ctx.thorough and signer == "rsa" and ci >= 2 and ctx.rng.random() > 0.25:
+                                continue
+                            data = session_blob(w, b"session-id-c07", "user", second, blob)
+                            sigb, valid = make_sig(w, signer, name, how, data)
+                            if kind == "probe":
+                                prior = [(first, blob, False, b"")]
+                            else:
+                                d1 = session_blob(w, b"session-id-c07", "user", first, blob)
+                                prior = [(first, blob, True, make_sig(w, signer, first, "wrongdata", d1)[0])]
+                            fresh, _, _ = drive_server(w, Srv, t, second, blob, False, True, sigb)
+                            impl, srv, h = drive_server(w, Srv, t, second, blob, False, True, sigb, prior=prior)
+                            n += 1
+                            case = {"side": "server-history", "disabled_pubkeys": dis, "blob": label,
+                                    "first_request": kind, "first_declared": first, "declared": second,
+                                    "sig_name": name, "made_with": how}
+                            ctx.count(("server-history", tuple(dis), label, first, kind, second, name, how),
+                                      nontrivial=True, kind="server-history-" + kind)
+                            base = second.replace(CERT, "")
+                            if impl[0] == 0 or h.authenticated:
+                                if base not in enabled or name not in enabled:
+                                    ctx.fail("history-userauth-accepts-disabled-algorithm",
+                                             "after an earlier request naming %r the server accepted a signed request "
+                                             "declaring / signed with a disabled algorithm (%r / %r)"
+                                             % (first, second, name), case=case, expected="disconnect",
+                                             observed="USERAUTH_SUCCESS")
+                                elif name != base:
+                                    ctx.fail("history-userauth-accepts-other-algorithm",
+                                             "after an earlier request the server accepted a signature whose algorithm "
+                                             "is not the declared one", case=case, expected="USERAUTH_FAILURE",
+                                             observed="USERAUTH_SUCCESS")
+                                elif valid != [rfc_hash(w, signer, name)]:
+                                    ctx.fail("history-userauth-wrong-hash", "signature accepted under another hash",
+                                             case=case, expected="USERAUTH_FAILURE", observed="USERAUTH_SUCCESS")
+                            if impl != fresh and impl != [997]:
+                                ctx.fail("userauth-depends-on-earlier-request",
+                                         "the publickey decision differs from the one a fresh AuthHandler takes for "
+                                         "the same request", case=case, expected=fresh, observed=impl)
+    return n
 
 
 # --------------------------------------------------------------------------
@@ -839,7 +925,7 @@ def run(ctx):
                 "(RSA: 6 HASHES names, 3 foreign; EC: 5; Ed: 3) x how the bytes were really made (RSA: SHA-1, "
                 "SHA-256, SHA-512, other data; else real / other data); server = the same x 6 disabled-pubkeys "
                 "sets (first two sets fully enumerated in the quick tier, others sampled at 10 %; thorough: all) "
-                "with callback refusal / key probe riding along; every client case repeated with the transport already holding the same / another host key (re-key); preference lists on generated configurations; "
+                "with callback refusal / key probe riding along; two-request histories on one AuthHandler (key probe or rejected signed request naming one algorithm, then a signed request naming another; second decision compared with a fresh handler's); every client case repeated with the transport already holding the same / another host key (re-key); preference lists on generated configurations; "
                 "loopback handshakes / authentications against a peer signing with another algorithm.  A case "
                 "is non-trivial when distinct; every case reaches a key-class / name / hash branch.")
     ctx.trusted += ["model coq/Model/C07.v is hand-written; tied to rsakey.py / ecdsakey.py / ed25519key.py / "
@@ -852,11 +938,15 @@ def run(ctx):
                         "claim is made",
                         "str.replace of the cert suffix is modelled by strip_cert (left-to-right, non-overlapping)"]
     ctx.prove()
+    import logging
+    logging.getLogger("paramiko").setLevel(logging.CRITICAL + 10)     # expected failures are noisy
     w = build_world(ctx)
 
     # ---- implementation-level oracles first (they do not depend on the model) ----
     cc = client_cases(ctx, w)
     sc, full = server_cases(ctx, w)
+    nh = server_histories(ctx, w)
+    ctx.log("server histories (probe / rejected request, then signed request): %d" % nh)
     pc = prefs_cases(ctx, w, 300 if ctx.thorough else 60)
     nc = loop_oracle(ctx, w)
 
@@ -912,6 +1002,25 @@ def replay(ctx, rep):
             ctx.fail(rep["key"], rep["what"], case=case, expected="SSHException", observed="accepted")
         elif impl[0] != 0 and rep["key"] == "verify-key-rejects-honest-signature":
             ctx.fail(rep["key"], rep["what"], case=case, expected="accepted", observed=repr(exc))
+    elif side == "server-history" and case.get("blob") in blobs:
+        signer, blob = blobs[case["blob"]]
+        Srv = make_server_class(w)
+        t = new_transport(w, {"pubkeys": case["disabled_pubkeys"]})
+        data = session_blob(w, b"session-id-c07", "user", case["declared"], blob)
+        sigb, valid = make_sig(w, signer, case["sig_name"], case["made_with"], data)
+        if case["first_request"] == "probe":
+            prior = [(case["first_declared"], blob, False, b"")]
+        else:
+            d1 = session_blob(w, b"session-id-c07", "user", case["first_declared"], blob)
+            prior = [(case["first_declared"], blob, True, make_sig(w, signer, case["first_declared"], "wrongdata", d1)[0])]
+        fresh, _, _ = drive_server(w, Srv, t, case["declared"], blob, False, True, sigb)
+        impl, srv, h = drive_server(w, Srv, t, case["declared"], blob, False, True, sigb, prior=prior)
+        ctx.log("replay server history:", case, "->", impl, "fresh:", fresh)
+        enabled = [x for x in w.paramiko.Transport._preferred_pubkeys if x not in case["disabled_pubkeys"]]
+        base = case["declared"].replace(CERT, "")
+        if (impl[0] == 0 and (base not in enabled or case["sig_name"] not in enabled or case["sig_name"] != base)) \
+                or (impl != fresh and impl != [997]):
+            ctx.fail(rep["key"], rep["what"], case=case, expected=fresh, observed=impl)
     elif side == "server" and case.get("blob") in blobs:
         signer, blob = blobs[case["blob"]]
         Srv = make_server_class(w)
